@@ -74,8 +74,14 @@ pub fn observe_one<S: QueryStatementWriter, B: QueryBuilder + Default>(s: &S, ev
     let collect_any_sql = s.build_collect_any(&B::default(), &mut w2);
     let mut w3 = String::new();
     let collect_string = s.build_collect(B::default(), &mut w3);
+    let mut w4 = SqlWriterValues::new(ph.clone(), numbered);
+    s.build_collect_any_into(&B::default(), &mut w4);
+    let (into_sql, into_values) = w4.into_parts();
+    let mut w5 = String::new();
+    s.build_collect_any_into(&B::default(), &mut w5);
     let inline2 = s.to_string(B::default());
     let mut o = json!({
+        "collect_any_into_sql": into_sql, "collect_any_into_values": vals(&into_values), "collect_any_into_string": w5,
         "inline": inline, "inline_again": inline2,
         "sql": sql, "values": vals(&values),
         "lits": values.0.iter().map(|v| B::default().value_to_string(v)).collect::<Vec<String>>(),
